@@ -9,6 +9,7 @@ from ..engine import finite, flow
 from ..engine.mutate import Mutant, Variant, in_function, replace_once
 from ..engine.runner import Rule
 from ..engine.source import AnalysisError, Evaluator, Hole
+from . import shared
 from .common import callee_name, calls_in, kwarg
 
 EXPLANATION = (
@@ -301,16 +302,25 @@ def rule_held_nodes(ctx):
     ctx.check("for st in self.nodes(StaticTree)" in src, wd.fq, "only files owned by a static tree are pruned here", "pruning scope changed", "StaticTree products")
 
 
+def rule_roles_and_ownership(ctx):
+    """R-C06-7: a path cannot keep the content-blind VOLATILE treatment, or stay deletable, after its declaration
+    changed its role or its owner."""
+    shared.check_can_recycle_compares_roles(ctx, "a step whose {p} changed is recycled as it was: a path that moved between the volatile and the regular outputs keeps its old state, so a user-modified regular output is still removed like a volatile one (or the reverse)")
+    shared.check_tree_adopts_all_detached(ctx, "a former (volatile) output under a directory that is now declared as a static tree stays a detached deletable row: the next cleanup removes a file inside a static tree")
+
+
 RULES = [
     Rule("R-C06-1", "who may delete from the file system", rule_who_may_delete, min_instances=6),
     Rule("R-C06-2", "what may be queued for deletion", rule_what_is_queued, min_instances=40),
     Rule("R-C06-3", "re-hash before unlink", rule_rehash_before_unlink, min_instances=8),
     Rule("R-C06-4", "cleanup guards in Builder.finalize", rule_finalize_guards, min_instances=5),
     Rule("R-C06-5", "clean tool filters", rule_clean_tool, min_instances=5),
+    Rule("R-C06-7", "role and ownership changes leave no deletable row behind", rule_roles_and_ownership, min_instances=5),
     Rule("R-C06-6", "held nodes are kept", rule_held_nodes, min_instances=4),
 ]
 
 MUTANTS = [
+    Mutant("recycle-merges-out-and-vol", "step.py", in_function("Step.can_recycle", lambda s: s.replace("        old_out_paths = sorted(r.path for r in self.out_paths(dynamic=False))\n        if old_out_paths != sorted(out_paths):\n            return False\n        old_vol_paths = sorted(r.path for r in self.vol_paths(dynamic=False))\n        return old_vol_paths == sorted(vol_paths)\n", "        old_paths = sorted(r.path for r in self.out_paths(dynamic=False)) + sorted(r.path for r in self.vol_paths(dynamic=False))\n        return sorted(old_paths) == sorted([*out_paths, *vol_paths])\n") if "old_vol_paths == sorted(vol_paths)" in s else None), ("R-C06-7",)),
     Mutant("rmtree-prune", "finalize.py", in_function("_prune_empty_dirs", replace_once("_try_remove(path.rmdir)", "_try_remove(path.rmtree_p)")), ("R-C06-1", "R-C06-3")),
     Mutant("delete-in-workflow", "workflow.py", in_function("Workflow.mark_dir_to_be_deleted", replace_once("            self.to_be_deleted[path + os.sep] = None\n", "            self.to_be_deleted[path + os.sep] = None\n            Path(path).rmdir_p()\n")), ("R-C06-1",)),
     Mutant("queue-confirmed", "file.py", in_function("File.before_delete", replace_once("elif state in (FileState.BUILT, FileState.OUTDATED):", "elif state in (FileState.BUILT, FileState.OUTDATED, FileState.CONFIRMED):")), ("R-C06-2",)),
